@@ -205,8 +205,22 @@ func (w *World) checkProperty(id, tier string, seed int, t0 time.Time, writeEvid
 	workDir := filepath.Join(verifDir, "work", id)
 	os.RemoveAll(workDir)
 	os.MkdirAll(workDir, 0755)
-	results := dischargeAll(pr.obls, workDir, timeout, 16)
 	base := loadBaseline().Props[id]
+	var slowSkipped []string
+	if tier != "thorough" {
+		var keep []*Obligation
+		for _, o := range pr.obls {
+			if strings.HasSuffix(base[o.Name], ":slow") {
+				slowSkipped = append(slowSkipped, o.Name)
+				continue
+			}
+			keep = append(keep, o)
+		}
+		pr.obls = keep
+	} else {
+		timeout = 90
+	}
+	results := dischargeAll(pr.obls, workDir, timeout, 16)
 	known := loadKnown()
 	byName := map[string]*Result{}
 	for _, r := range results {
@@ -316,7 +330,7 @@ func (w *World) checkProperty(id, tier string, seed int, t0 time.Time, writeEvid
 	// baseline obligations that were not generated at all
 	var missing []string
 	for name, kind := range base {
-		if _, ok := byName[name]; !ok && contractLevel(kind) {
+		if _, ok := byName[name]; !ok && contractLevel(strings.TrimSuffix(kind, ":slow")) {
 			missing = append(missing, name)
 		}
 	}
@@ -362,6 +376,7 @@ func (w *World) checkProperty(id, tier string, seed int, t0 time.Time, writeEvid
 				"samples":                  samples,
 				"generated_obligations":    len(results),
 				"not_claimed":              notClaimed,
+				"slow_thorough_only":       slowSkipped,
 				"undecided_new":            undecidedNew,
 				"unverified_functions":     pr.unsup,
 				"known_findings":           knownLines,
@@ -473,8 +488,19 @@ func cmdBaseline(args []string) {
 					set[r.Obl.Name] = r.Obl.Kind
 				} else if kf := known.match(id, r.Obl.Name); kf != nil && w.checkKnown(kf, r, workDir, 10) == "confined" {
 					set[r.Obl.Name] = r.Obl.Kind
+				} else if r.Status == "proved" || r.Status == "undecided" || r.Status == "refuted-candidate" {
+					// second chance with the thorough-tier time-out: claimed for the thorough tier only
+					r2 := discharge(r.Obl, workDir, 90, false)
+					if r2.Status == "proved" {
+						set[r.Obl.Name] = r.Obl.Kind + ":slow"
+						if i == 0 {
+							fmt.Printf("slow (thorough only): %s %.1fs\n", r.Obl.Name, r2.TimeS)
+						}
+					} else if i == 0 {
+						fmt.Printf("not claimed: %s %s %.1fs %s\n", r2.Status, r.Obl.Name, r2.TimeS, trunc(r2.Reason, 200))
+					}
 				} else if i == 0 {
-					fmt.Printf("not claimed: %s %s %.1fs %s\n", r.Status, r.Obl.Name, r.TimeS, r.Reason)
+					fmt.Printf("not claimed: %s %s %.1fs %s\n", r.Status, r.Obl.Name, r.TimeS, trunc(r.Reason, 200))
 				}
 			}
 			sets = append(sets, set)
